@@ -24,7 +24,7 @@ RULE = ("case = product graph (3-6 names x 1-3 versions, required/optional edges
         "expanded form (exact block + inexact branch); 'cf' stream conflict-free by construction, "
         "'arb' stream with arbitrary specs incl. diamond conflicts) + build-time setup of the top product + expansion of its "
         "table (CLI defaults) + 0-4 syntactic/option variants expanded in the same environment + random evolution "
-        "(new lower/higher versions, current moved, absent products appearing) + exact re-setup; a case is non-trivial when "
+        "(new lower/higher versions, current moved, absent products appearing); 12 % of the graphs have a version NAMED like a recognised tag (current, beta) — the build version in the cf stream — while that tag is assigned to another version of the product + exact re-setup; a case is non-trivial when "
         "the build succeeded and set up at least one dependency; distinct = distinct digests of (graph, top table, options)")
 TRUSTED = ["CPython `re` on the six patterns of expandTableFile, `str.split/strip/join`, `%-15s` formatting (hand-translated, "
            "exercised by the text comparison on every run, not verified)",
@@ -44,7 +44,7 @@ MIRRORS = [("python/eups/table.py", "expandTableFile"), ("python/eups/table.py",
            ("python/eups/app.py", "expandTableFile"), ("python/eups/app.py", "getDependencies"),
            ("python/eups/Eups.py", "Eups.getDependentProducts"), ("python/eups/Eups.py", "Eups.selectVRO"),
            ("python/eups/Eups.py", "Eups.makeVroExact"), ("python/eups/Eups.py", "Eups.findSetupProduct"), ("python/eups/Eups.py", "Eups.setup"),
-           ("python/eups/cmd.py", "ExpandtableCmd.execute")]
+           ("python/eups/Eups.py", "Eups.findSetupVersion"), ("python/eups/cmd.py", "ExpandtableCmd.execute")]
 
 NW = 4
 
@@ -753,6 +753,31 @@ def case_input(case):
     return {k: v for k, v in case.items() if not k.startswith("_")}
 
 
+RECOGNISED = ["current", "beta"]       # the tags the harness's startup file makes known (common.mkstacks)
+
+
+def setup_version_requests(case, r):
+    """The model's findSetupVersion asked about every answer `sv` / `spv` of the main expansion: [(name, reported, request)]."""
+    if r.get("build_ok") is not True or r.get("tampered") or not r.get("exps") or "answers" not in r["exps"][0]:
+        return []
+    built, out = r["built"], []
+    tn = case.get("tag_named") or {}
+    for key in ("sv", "spv"):
+        for n, v in r["exps"][0]["answers"][key]:
+            rec = built.get(n)
+            if rec is None:
+                continue
+            if rec == "current":
+                tagged = case["tags"].get(n)
+            elif tn.get("product") == n and tn.get("name") == rec:
+                tagged = tn["tagged"]
+            else:
+                tagged = None
+            declared = any(dn == n and dv == rec for dn, dv, _ in case["decl"])
+            out.append((n, key, v, {"recorded": rec, "declared": declared, "tagged": tagged}))
+    return out
+
+
 def evaluate(ctx, cases):
     if not cases:
         return
@@ -770,6 +795,18 @@ def evaluate(ctx, cases):
                 where.append((ci, ei))
                 reqs.append(model_request(exp))
     answers = ctx.lean.ask_many(reqs)
+    # findSetupVersion: the answers `sv` / `spv` against the model (recorded version; a tag name only when no such version is declared)
+    svq = [(ci, q) for ci, (c, r) in enumerate(zip(cases, results)) for q in setup_version_requests(c, r)]
+    if svq:
+        sva = ctx.lean.ask({"m": "c17", "op": "setupversion", "lines": [], "recognised": RECOGNISED, "cases": [q[3] for _, q in svq]})
+        if "bad-op" in sva:
+            raise common.InfraError("driver: %s" % sva["bad-op"])
+        for (ci, (n, key, v, q)), mv in zip(svq, sva["versions"]):
+            ctx.hist("setup_version_checked")
+            if q["recorded"] in RECOGNISED:
+                ctx.hist("tag_named_version_set_up=%s" % q["recorded"])
+            if v != mv:
+                ctx.disagree("setup_version", {"case": case_input(cases[ci]), "product": n, "question": key}, v, mv)
     models, hyps, raw = {}, {}, {}
     for (ci, ei), a in zip(where, answers):
         raw[(ci, ei)] = a
@@ -788,6 +825,8 @@ def evaluate(ctx, cases):
                  sample=({"top": c["top"], "table": L.table_text(topl), "built": r.get("built"),
                           "expanded": r["exps"][0].get("out") if r["exps"] else None} if ctx.evaluations % 97 == 0 else None))
         ctx.hist("stream=%s" % c["stream"])
+        if c.get("tag_named"):
+            ctx.hist("tag_named_version=%s" % c["tag_named"]["name"])
         if c.get("expanded_deps"):
             ctx.hist("has_expanded_dependency_tables")
         for _, _, ls in c["decl"]:
@@ -999,28 +1038,48 @@ def shrink_failures(ctx, limit=3):
 
 
 def run(ctx):
+    import time
+    big = ctx.tier == "thorough" or ctx.escalated
+    # -- the ordinary quick portion, always first and complete (also when the mirrored source changed and `check` escalated the
+    #    budget: the new input classes live in the generated stream, which must not be starved by the enlarged enumerations)
     cases = corpus_cases()
     ctx.hist("corpus", len(cases))
-    evaluate_regexes(ctx, ctx.n(20000, 300000))
     evaluate(ctx, cases)
-    ex = exhaustive_cases(ctx.n(2, 3))
+    evaluate_regexes(ctx, 20000)
+    ex = exhaustive_cases(2)
     ctx.hist("exhaustive_small_tables", sum(len(c["variants"]) for c in ex))
     evaluate(ctx, ex)
-    n = ctx.n(1200, 30000)
     batch = 120
     done = 0
-    import time
-    soft = None if (ctx.tier == "thorough" or ctx.escalated) else ctx.t0 + 120      # keep the quick tier near two minutes on a busy machine
-    while done < n and not ctx.out_of_time() and not (soft and time.time() > soft and done >= 360):
-        k = min(batch, n - done)
+    soft = ctx.t0 + 120                  # keep the quick portion near two minutes on a busy machine, never below 360 graphs
+    while done < 1200 and not ctx.out_of_time() and not (time.time() > soft and done >= 360):
+        k = min(batch, 1200 - done)
         evaluate(ctx, [L.gen_case(ctx.rng) for _ in range(k)])
         done += k
+    # -- the enlarged budget (thorough tier, or quick tier escalated because a mirrored function changed), round-robin over
+    #    the three families so that none is starved when the time limit cuts the run short
+    if big and not ctx.out_of_time():
+        ex3 = [c for c in exhaustive_cases(3) if any(v["text"].count("\n") == 3 for v in c["variants"])]
+        ctx.hist("exhaustive_small_tables", sum(len(c["variants"]) for c in ex3))
+        rex_left = 280000
+        while (done < 30000 or ex3 or rex_left > 0) and not ctx.out_of_time():
+            if done < 30000:
+                k = min(batch, 30000 - done)
+                evaluate(ctx, [L.gen_case(ctx.rng) for _ in range(k)])
+                done += k
+            if ex3 and not ctx.out_of_time():
+                evaluate(ctx, [ex3.pop()])
+            if rex_left > 0 and not ctx.out_of_time():
+                evaluate_regexes(ctx, 20000)
+                rex_left -= 20000
     if ctx.failures:
         shrink_failures(ctx)
     h = ctx.histogram
     if ctx.evaluations >= 100:
         if h.get("build=True", 0) < 0.5 * ctx.evaluations:
             raise common.InfraError("degenerate distribution: only %d of %d builds succeeded" % (h.get("build=True", 0), ctx.evaluations))
+        if ctx.evaluations >= 300 and sum(v for k, v in h.items() if k.startswith("tag_named_version_set_up=")) < 3:
+            raise common.InfraError("degenerate distribution: a version named like a recognised tag was set up in fewer than 3 of %d cases" % ctx.evaluations)
         if ctx.evaluations >= 300 and not any(k.startswith("top_table_unsetup_line=") for k in h):
             raise common.InfraError("degenerate distribution: no unsetup line in an expanded table among %d cases" % ctx.evaluations)
         if h.get("exact_block=pins", 0) < 0.3 * ctx.evaluations:
